@@ -3,6 +3,7 @@
   of configurations that never occur.
 -/
 import PgmVerif.Props.C06
+import PgmVerif.Model.Generated
 import PgmVerif.Model.Score
 import PgmVerif.Proofs.ScoreEq
 namespace PgmVerif
@@ -189,6 +190,11 @@ example : bdeuExp 1 2 (colsX 1 2 2 (fun _ x y => x + 2 * y)) * bdeuExp 1 2 (cols
   C10_bdeu_covered_edge 1 (by norm_num) 1 2 2 (by norm_num) (by norm_num) (by norm_num) _
 
 example : (LRU.run (fun k : Nat => k * k) { maxSize := 2, entries := [] } [1, 2, 1, 3, 2]).2 = [1, 4, 1, 9, 4] := by
+  decide
+
+/-- extraction tie: default cache size (≥ 1, as `C10_cache_transparent` requires) and default equivalent sample sizes -/
+theorem C10_defaults_tie :
+    Generated.scoreDefaults = [("LRUCache.max_size", 10000), ("ScoreCache.max_size", 10000), ("BDeuScore.ess", 10), ("BDsScore.ess", 10)] := by
   decide
 
 end PgmVerif
